@@ -10,11 +10,14 @@ def parsePos (s : String) : Pos :=
   | [a, b, c] => ⟨a.toInt!, b.toInt!, c.toInt!⟩
   | _ => ⟨-1, -1, -1⟩
 
-def parseTy (s : String) : Ty :=
+def parseTy0 (s : String) : Ty :=
   match s with
   | "Int" => .int | "Float" => .float | "String" => .str | "Bool" => .bool | "Pattern" => .pattern
   | "None" => .none | "Buckets" => .buckets | "Undef" => .undef | "Dim" => .dim | "Var" => .var
   | "Error" => .error | "-" => .unk | _ => .other
+
+def parseTy (s : String) : Ty :=
+  if s.endsWith "~" then .via (parseTy0 (s.dropEnd 1).toString) else parseTy0 s
 
 def parseOp (s : String) : Option Op :=
   match s with
